@@ -5,3 +5,4 @@ import RdsSpec.Monitors
 import RdsSpec.Statements
 import RdsSpec.Reference
 import RdsSpec.TableCheck
+import RdsSpec.Worded
